@@ -45,6 +45,11 @@ func init() {
 	}, run: runRunnerCase})
 	register("exprs", family{gen: genExprCase, run: runRunnerCase})
 	register("cmdargs", family{gen: genCmdArgsCase, run: runRunnerCase})
+	layCfg := flowCfg
+	layCfg.faultPct = 0
+	register("layout", family{gen: func(r *rand.Rand, tier string) *sx.Node {
+		return genRunnerCase(r, layCfg, opsCfg{steps: 30, extraAfterEnd: 1})
+	}, run: runLayouts})
 	rndCfg := flowCfg
 	rndCfg.randomFns, rndCfg.wCmd, rndCfg.wStop, rndCfg.faultPct = true, 0, 0, 0
 	register("random", family{gen: func(r *rand.Rand, tier string) *sx.Node {
@@ -517,4 +522,55 @@ func genCmdArgsCase(r *rand.Rand, tier string) *sx.Node {
 	return sx.Tag("runner", seedNode(randomSeed(r), 4), sx.Tag("storer", sx.Bool(false)), sx.Tag("init"), sx.Tag("hcmds", hc...),
 		sx.Tag("sched"), sx.Tag("nrunners", sx.Int(1)), sx.Tag("nodes", sx.List(nodes...)), sx.Tag("readers", sx.Int(1)),
 		layoutToSx(lay, lseed), sx.Tag("ops", ops...))
+}
+
+// standardLayouts: the renderings every program is compared under (C08), besides its own random one.
+func standardLayouts(seed int64) []*layout {
+	mk := func(f func(l *layout)) *layout {
+		l := defaultLayout()
+		l.r = rand.New(rand.NewSource(seed))
+		f(l)
+		return l
+	}
+	return []*layout{
+		mk(func(l *layout) { l.unit = " " }),
+		mk(func(l *layout) { l.unit = "        " }),
+		mk(func(l *layout) { l.unit = "\t" }),
+		mk(func(l *layout) { l.nl = "\r\n"; l.unit = "   " }),
+		mk(func(l *layout) { l.blankProb = 100 }),                      // a blank / comment line before EVERY line
+		mk(func(l *layout) { l.blankProb = 100; l.unit = "\t"; l.nl = "\r\n" }),
+		mk(func(l *layout) { l.parens = 1; l.wordOps = 1 }),             // maximal parentheses, word operators
+		mk(func(l *layout) { l.parens = 2; l.wordOps = 0; l.cmdSpaces = 100; l.trailingCmt = 100 }),
+		mk(func(l *layout) { l.wordOps = 2; l.cmdSpaces = 50 }),
+	}
+}
+
+// runLayouts runs the case under its own layout, the standard layouts, and with one node per
+// reader; all parsed dialogues and all traces must be identical.
+func runLayouts(c *sx.Node) *sx.Node {
+	base := runRunnerCase(c).String()
+	variants := []*sx.Node{}
+	for _, l := range standardLayouts(c.L[9].L[8].Int()) {
+		v := *c
+		v.L = append([]*sx.Node{}, c.L...)
+		v.L[9] = layoutToSx(l, c.L[9].L[8].Int()+1)
+		variants = append(variants, &v)
+	}
+	one := *c
+	one.L = append([]*sx.Node{}, c.L...)
+	readers := []*sx.Node{}
+	for range c.L[7].L[1].L {
+		readers = append(readers, sx.Int(1))
+	}
+	one.L[8] = sx.Tag("readers", readers...)
+	variants = append(variants, &one)
+	for i, v := range variants {
+		if got := runRunnerCase(v).String(); got != base {
+			a, _ := sx.Parse(base)
+			b, _ := sx.Parse(got)
+			return sx.Tag("differ", sx.Int(int64(i)), a, b, sx.Str(strings.Join(caseTexts(v), "#####\n")))
+		}
+	}
+	n, _ := sx.Parse(base)
+	return n
 }
